@@ -328,8 +328,8 @@ class ArgCheck:
         if exp[0] == 'float':
             if not isinstance(got, FloatVal):
                 return f'delivered {got!r} instead of a float'
-            if got.ty != exp[2]:
-                return f'delivered a value parsed as {got.ty} for a {exp[2]} parameter (double rounding)'
+            if got.ty != exp[2] or getattr(got, 'parsed_as', got.ty) != exp[2]:
+                return f'delivered a value parsed as {getattr(got, "parsed_as", got.ty)} for a {exp[2]} parameter (double rounding)'
             if getattr(got, 'ops', None):
                 return f'the parsed value was modified before delivery: {got.ops}'
             if got.src is None or len(got.src) != len(exp[1]):
